@@ -175,7 +175,11 @@ def generate(rng: random.Random, tier: str) -> dict:
             ops.append({"op": "DELETE_OLD_RUN", "name": rng.choice(names), "which": rng.randrange(4)})
         else:
             ops.append({"op": "RESTART"})
-    return {"engine": NAME, "kind": "history", "ops": ops, "real_optimize": rng.random() < 0.15}
+    two_handles = rng.random() < 0.35
+    if two_handles:
+        for op in ops:
+            op["handle"] = rng.randrange(2)
+    return {"engine": NAME, "kind": "history", "ops": ops, "real_optimize": rng.random() < 0.15, "two_handles": two_handles}
 
 
 # ---------------------------------------------------------------------------
@@ -526,6 +530,9 @@ class Run:
         os.makedirs(self.free_dir)
         # set the project up through the public API (fault-free)
         project = self.open_project()
+        handles = [project, self.open_project()] if plan.get("two_handles") else [project]
+        if plan.get("two_handles"):
+            rec.probe("two_project_handles")
         project.import_data(make_dataset(), dataset_name="dataset_1")
         project.generate_model("m", "decay_parallel", {"nr_compartments": 1, "irf": False})
         project.generate_parameters("m")
@@ -544,10 +551,13 @@ class Run:
                 rec.logical["ops"] += 1
                 before = snapshot(self.sandbox)
                 handler = getattr(self, "op_" + kind.lower())
+                h = op.get("handle", 0) % len(handles)
+                project = handles[h]
                 self.fs.arm(op.get("fault"))
                 crash = None
                 try:
                     project = handler(op, project, before) or project
+                    handles[h] = project
                 except SimCrash as e:
                     crash = e
                 fired_here = bool(self.fs.fired)
@@ -555,18 +565,21 @@ class Run:
                 if crash is not None:
                     # process died: only the directory tree survives
                     rec.probe("crash_restart")
-                    project = self.open_project()
+                    handles = [self.open_project() for _ in handles]  # the process died: every handle is gone
+                    project = handles[0]
                 if fired_here and kind in ("IMPORT_DATA", "GENERATE_MODEL", "GENERATE_PARAMETERS"):
                     # the operator repairs the inputs a failed write may have damaged, so that a later
                     # Project.optimize failing is never the harness' own doing
-                    self.repair_inputs(project)
+                    self.repair_inputs(handles[0])
                 if rec.violations:
                     break
             # bounded liveness: after the last fault a fault-free optimize completes and is loadable
             if not rec.violations:
                 before = snapshot(self.sandbox)
                 self.fs.arm(None)
-                self.op_project_optimize({"op": "PROJECT_OPTIMIZE", "name": "fit", "fault": None}, project, before, final=True)
+                self.op_project_optimize(
+                    {"op": "PROJECT_OPTIMIZE", "name": "fit", "fault": None}, handles[-1], before, final=True
+                )
         finally:
             optmod.optimize = real_optimize
         dkey = core.digest([kinds, plan.get("real_optimize")])
